@@ -79,7 +79,7 @@ func judge(class string, key []byte, o *fw.Obs) {
 	var got string
 	var err error
 	var sp fw.SpareSet
-	srcBuf := sp.Of("data", data, 64) // a window into a larger buffer: padding appended to it would write into the caller's memory
+	srcBuf := fw.NilIfEmpty(sp.Of("data", data, 64), byte(len(hrp))) // a window into a larger buffer: padding appended to it would write into the caller's memory
 	if !o.Try("bech32.Encode", func() {
 		got, err = bech32.Encode(hrp, srcBuf)
 		if !sp.Check(o) {
